@@ -57,7 +57,7 @@ def scenarios(tier, seed):
                 add(family=f"unary/{op}", op=op, sf=sf, card=card, inplace=(k % 2 == 0))
             # equality / hash
             for perm in itertools.permutations(sf):
-                for mode in ["same", "delta", "stateperm"]:
+                for mode in ["same", "delta", "stateperm", "staterot"]:
                     add(family="eq", op="eq", sf=sf, sg=list(perm), card=card, mode=mode)
         # n-ary helpers
         for combo in [(["x", "y"], ["y", "z"], ["z"]), (["y", "x"], ["x"], ["x", "y"]), (["x"], ["y"], ["z"])]:
@@ -372,6 +372,8 @@ def run(desc, M):
         perm = {v: list(range(card[v])) for v in sg}
         if desc["mode"] == "stateperm":
             perm = {v: list(range(card[v]))[::-1] for v in sg}
+        if desc["mode"] == "staterot":   # a permutation that is not its own inverse (3-cycle for three states)
+            perm = {v: list(range(card[v]))[1:] + [0] for v in sg}
         vals = []
         firstcell = True
         for st in itertools.product(*[range(c) for c in cardg]):
@@ -383,7 +385,7 @@ def run(desc, M):
             vals.append(M.impl(x))
         style = desc["states"]
         sn = {v: [C.expected_state_names(desc, v)[i] for i in perm[v]] for v in sg}
-        if style == "default" and desc["mode"] != "stateperm":
+        if style == "default" and desc["mode"] not in ("stateperm", "staterot"):
             pg = DiscreteFactor(sg, cardg, vals)
         else:
             pg = DiscreteFactor(sg, cardg, vals, state_names=sn)
